@@ -73,6 +73,16 @@ theorem closed_purges (cfg : Cfg) (P : Store) (now now1 : Tick) (exec : Id → N
   intro i ho
   simp [hc, purge, ho]
 
+/-- The same when the cycle ends because no handler is selected for the cause any more (the `skip`
+    path): the records left behind by the previously selected handlers go with it. -/
+theorem closed_purges_skip (cfg : Cfg) (P : Store) (now now1 : Tick) (exec : Id → Nat → Outcome)
+    (hr : handlerReasons.contains cfg.reason = true) (he : cfg.selected.isEmpty = true) :
+    (cycle cfg P now now1 exec).closed = true ∧ ∀ i ∈ cfg.owned, (cycle cfg P now now1 exec).P' i = none := by
+  rw [cycle_no_handlers cfg P now now1 exec hr he]
+  refine ⟨rfl, ?_⟩
+  intro i ho
+  simp [purge, ho]
+
 /-- … nor any record of their sub-handlers (the `subrefs` of every known state). -/
 theorem closed_purges_subrefs (cfg : Cfg) (P : Store) (now now1 : Tick) (exec : Id → Nat → Outcome)
     (hr : handlerReasons.contains cfg.reason = true) (hne : cfg.selected.isEmpty = false)
@@ -141,7 +151,9 @@ theorem noExtras_preserved (cfg : Cfg) (P : Store) (now now1 : Tick) (exec : Id 
   have hex := noExtras_extras (now := now) hsub hne
   by_cases hr : handlerReasons.contains cfg.reason = true
   · by_cases he : cfg.selected.isEmpty = true
-    · rw [cycle_no_handlers cfg P now now1 exec hr he, midStore_noExtras hex]; exact hne
+    · rw [cycle_no_handlers cfg P now now1 exec hr he]
+      intro i ho r hP'
+      simp [purge, ho] at hP'
     · have he' : cfg.selected.isEmpty = false := by simpa using he
       rw [cycle_main cfg P now now1 exec hr he']
       simp only
